@@ -268,6 +268,19 @@ def finding_of_names(names):
 # ------------------------------------------------------------------------------------------
 # streams
 # ------------------------------------------------------------------------------------------
+def stream_wrap_exhaustive(I, R, maxwords):
+    """textwrap.wrap(break_long_words=False, break_on_hyphens=False) against both wrap models on EVERY single-blank text
+    made of up to `maxwords` words of length 1, 2, 3 or 5 (one of them hyphenated) and every width 1..7"""
+    import itertools, textwrap
+    WORDS = ['a', 'bb', 'c-c', 'ddddd']
+    for k in range(0, maxwords + 1):
+        for ws in itertools.product(WORDS, repeat=k):
+            text = ' '.join(ws)
+            for ww in range(1, 8):
+                want = wire.enc_list(textwrap.wrap(text, width=ww, break_long_words=False, break_on_hyphens=False))
+                R.add(Case({'op': 'wrapw', 'width': ww, 'text': text}, kind='codec', tags=('wrapw-exh',), impl=want), 'wrapw\t%d\t%s' % (ww, wire.enc(text)))
+                R.add(Case({'op': 'wrap', 'width': ww, 'text': text}, kind='codec', tags=('wrap-exh',), impl=want), 'wrap\t%d\t%s' % (ww, wire.enc(text)))
+
 def stream_codec(I, R, r, n):
     # the blank characters of str.strip()/split()/isspace() (carried by Py.isSpace in the model)
     for lo, hi in ((0, 0x3100), (0xfe00, 0x10000), (0x1fff0, 0x20010)):
@@ -1604,6 +1617,7 @@ def explore(ctx, scale, seed_stream='c15'):
     R = Run()
     r = rng.make(seed_stream)
     stream_corpus(I, R)
+    stream_wrap_exhaustive(I, R, 4 if scale == 1 else 6)
     stream_codec(I, R, r, 1500 * scale)
     stream_values(I, R, r, 12 * scale, 120)
     stream_texts(I, R, r, 3000 * scale)
